@@ -95,11 +95,46 @@ def pick(scripts, n_interesting, n_other, seed):
         # (the schedule behind the repaired queue-abandon defect: it must stay covered in every seed)
         return (s["predicts_loss"] or s["predicts_dup"]
                 or any(c["c"] in ("close", "shutdown") and c["pend"] for c in s["hist"]))
-    hot = [s for s in scripts if interesting(s)]
-    cold = [s for s in scripts if not interesting(s)]
+    def rescue(s):
+        # a storage write fails, storage recovers and a maintenance tick runs with the failure flag set while the
+        # rotated WAL file is old enough to be replayed: the schedules in which "retry or WAL replay" must work.
+        # Variants: failure by error / by timeout; another flush succeeding between the failure and the tick.
+        seen_fail = False
+        for c in s["hist"]:
+            if c["c"] == "io" and not c["ok"]:
+                seen_fail = True
+            if c["c"] == "tick" and seen_fail and c.get("flag"):
+                return True
+        return False
+
+    def rescue_class(s):
+        kinds, ok_between, seen_fail = set(), False, False
+        for c in s["hist"]:
+            if c["c"] == "io" and not c["ok"]:
+                seen_fail = True
+                kinds.add(c.get("kind", "error"))
+            elif c["c"] == "io" and c["ok"] and seen_fail:
+                ok_between = True
+            elif c["c"] == "tick" and seen_fail:
+                break
+        return (tuple(sorted(kinds)), ok_between)
+    resc = [s for s in scripts if rescue(s) and not (s["predicts_loss"] or s["predicts_dup"])]
+    # deterministic: up to 12 per (failure kinds, ok-flush-in-between) class, evenly spaced
+    chosen_resc = []
+    byc = {}
+    for s in resc:
+        byc.setdefault(rescue_class(s), []).append(s)
+    for k in sorted(byc):
+        lst = byc[k]
+        n = min(12, len(lst))
+        chosen_resc += [lst[int(i * len(lst) / float(n))] for i in range(n)]
+    rid = {id(s) for s in chosen_resc}
+    hot = [s for s in scripts if interesting(s) and id(s) not in rid]
+    cold = [s for s in scripts if not interesting(s) and id(s) not in rid]
     if len(hot) > n_interesting:
         step = len(hot) / float(n_interesting)
         hot = [hot[int(i * step)] for i in range(n_interesting)]
+    hot = chosen_resc + hot
     rnd = random.Random(seed)
     if len(cold) > n_other:
         cold = rnd.sample(cold, n_other)
@@ -172,6 +207,41 @@ def _wal_events(evs):
     return out
 
 
+def _failed_flush_not_replayed(evs):
+    """Rows with: a failed storage write, then the FIRST maintenance tick after it found the row's WAL file rotated and
+    with MinFileAge (5 s) <= age <= safeAge -- i.e. eligible for the replay branch -- and left the file in place (no replay).
+    In the code as written the failure flag is set by the failed write and only a tick resets it, so this never happens."""
+    out = set()
+    failed_at = {}
+    for i, ev in enumerate(evs):
+        if ev["ev"] == "store" and not ev["ok"]:
+            for r in ev["rows"]:
+                failed_at.setdefault(r, i)
+    if not failed_at:
+        return out
+    ticks = []
+    begin = None
+    for i, ev in enumerate(evs):
+        if ev["ev"] != "info":
+            continue
+        what, _, payload = ev["what"].partition(" ")
+        if what == "tick-begin":
+            begin = (i, json.loads(payload))
+        elif what == "tick-end" and begin:
+            ticks.append((begin[0], begin[1], json.loads(payload)))
+            begin = None
+    for r, fi in failed_at.items():
+        nxt = [t for t in ticks if t[0] > fi]
+        if not nxt:
+            continue
+        _, bd, ed = nxt[0]
+        after = {f["name"] for f in (ed.get("files") or [])}
+        for f in (bd.get("files") or []):
+            if r in f["ids"] and not f["active"] and 5.0 <= f["age_s"] <= bd.get("safe_age_s", 30) and f["name"] in after:
+                out.add(r)
+    return out
+
+
 def classify(prop, run_events, rr, viol):
     """-> list of (signature, witness) for one run."""
     out = []
@@ -189,6 +259,7 @@ def classify(prop, run_events, rr, viol):
             except ValueError:
                 pass
     walev = _wal_events(run_events)
+    not_replayed = _failed_flush_not_replayed(run_events)
     abandoned = set(rr.get("abandoned") or [])
     stranded = set(rr.get("stranded") or [])
     wal = "wal=on" if rr.get("wal_on") else "wal=off"
@@ -217,7 +288,9 @@ def classify(prop, run_events, rr, viol):
                     # WAL on: a row is lost when its WAL copy disappears before it was stored;
                     # the decisive step is the one that removed the WAL copy
                     w = [x for x in walev.get(r, []) if not x.startswith("tick-skipped")]
-                    if w:
+                    if r in not_replayed:
+                        last = "failed-flush-not-replayed-by-the-next-tick-although-its-wal-file-was-eligible"
+                    elif w:
                         last = w[-1].split("(")[0]
                     else:
                         last = "wal-copy-never-observed" if r not in in_wal else "wal-copy-still-on-disk"
